@@ -168,7 +168,12 @@ func (e *Encoder) writeObject(data interface{}) (int, error) {
 		}
 	}
 	for i := 0; i < vv.NumField(); i++ {
-		_, err := e.WriteData(vv.Field(i).Interface())
+		fld := vv.Field(i)
+		if !fld.CanInterface() {
+			// reflection cannot read an unexported field: the value is refused, not a reason to panic
+			return 0, newCodecError("writeObject", "unexported field %s of %v cannot be encoded", typ.Field(i).Name, typ)
+		}
+		_, err := e.WriteData(fld.Interface())
 		if err != nil {
 			return 0, err
 		}
